@@ -209,3 +209,50 @@ pub(crate) const E_INVALID_ATTR: u8 = 8;
 pub(crate) const E_DIM_NOT_FOUND: u8 = 9;
 pub(crate) const E_CONVERSION: u8 = 10;
 pub(crate) const E_TRACING: u8 = 11;
+
+/// `is_err()` without running the drop glue of either payload.
+pub(crate) fn is_err_forget<T, E>(r: Result<T, E>) -> bool {
+    match r {
+        Ok(v) => {
+            std::mem::forget(v);
+            false
+        }
+        Err(e) => {
+            std::mem::forget(e);
+            true
+        }
+    }
+}
+
+/// Loop-free destructive view of a chain: its first four elements (newest first).
+pub(crate) fn pop4<T>(l: &mut crate::vcollections::LinkedList<T>) -> [Option<T>; 4] {
+    let a = l.pop_front();
+    let b = l.pop_front();
+    let c = l.pop_front();
+    let d = l.pop_front();
+    [a, b, c, d]
+}
+
+/// Loop-free read-only view of a chain: its first four elements (newest first).
+pub(crate) fn view4<T: Clone>(l: &crate::vcollections::LinkedList<T>) -> [Option<T>; 4] {
+    let mut it = l.iter();
+    let a = it.next().cloned();
+    let b = it.next().cloned();
+    let c = it.next().cloned();
+    let d = it.next().cloned();
+    [a, b, c, d]
+}
+
+/// Ghost allocation log: every `with_capacity` request seen by the substituted containers.
+pub mod alloc_log {
+    pub static mut MAX_REQ: usize = 0;
+    pub static mut COUNT: usize = 0;
+    pub fn request(n: usize) {
+        unsafe {
+            if n > MAX_REQ {
+                MAX_REQ = n;
+            }
+            COUNT += 1;
+        }
+    }
+}
